@@ -1,2 +1,165 @@
+"""Counterexample search + replay for C04 (Verus gives no model).
+
+For a failed obligation `fn[ClassA,ClassB]|kind|expr` the REAL function in $ERG_REPO is run
+(replay/src/c04.rs, catch_unwind) on a grid of boundary operands of the two classes and the
+result is compared with the independent Python big-int / float oracle below. The first
+disagreement (wrong value or panic) is the failing input recorded in the replay file.
+"""
+import math
+import re
+import struct
+
+from vlib import replay
+
+I32 = [0, 1, -1, 2, -2, 3, -3, 7, -7, 10, -10, 46341, -46341, 65536, -65536, 2**31 - 1, -2**31, -2**31 + 1, 2**30, 12345, -99999]
+U64 = [0, 1, 2, 3, 7, 10, 31, 32, 33, 63, 64, 65, 2**16, 2**31 - 1, 2**31, 2**31 + 5, 2**32, 2**32 + 1, 5 * 10**9, 2**53, 2**53 + 1, 2**63 - 1, 2**63, 2**64 - 1]
+F64 = [0.0, -0.0, 1.0, -1.0, 0.1, 1.5, -1.5, 2.0, -7.0, 7.0, 0.5, 1e308, -1e308, 5e-324, float('inf'), float('-inf'), float('nan'), 2.0**53, 3.0]
+BOOL = [False, True]
+
+
+def fbits(x):
+    return "0x%016x" % struct.unpack('<Q', struct.pack('<d', x))[0]
+
+
+def enc(kind, v):
+    if kind == 'Int':
+        return "Int:%d" % v
+    if kind == 'Nat':
+        return "Nat:%d" % v
+    if kind == 'Bool':
+        return "Bool:%s" % ("true" if v else "false")
+    return "Float:%s" % fbits(v)
+
+
+def dec(s):
+    k, v = s.split(':', 1)
+    if k == 'Int' or k == 'Nat':
+        return k, int(v)
+    if k == 'Bool':
+        return k, v == 'true'
+    if k == 'Float':
+        return k, struct.unpack('<d', struct.pack('<Q', int(v, 16)))[0]
+    return k, v
+
+
+GRID = {'Int': I32, 'Nat': U64, 'Bool': BOOL, 'Float': F64}
+
+PYOPS = {
+    'try_add': lambda a, b: a + b, 'try_sub': lambda a, b: a - b, 'try_mul': lambda a, b: a * b,
+    'try_div': lambda a, b: a / b, 'try_floordiv': lambda a, b: a // b, 'try_mod': lambda a, b: a % b,
+    'try_pow': lambda a, b: a ** b,
+    'try_gt': lambda a, b: a > b, 'try_ge': lambda a, b: a >= b, 'try_lt': lambda a, b: a < b,
+    'try_le': lambda a, b: a <= b, 'try_eq': lambda a, b: a == b, 'try_ne': lambda a, b: a != b,
+    'try_or': lambda a, b: a or b,
+}
+
+
+def oracle(op, a, b):
+    """Python's value, or ('raises', ExcName)."""
+    try:
+        if op == 'try_pow' and isinstance(b, int) and not isinstance(b, bool) and abs(b) > 4096 and isinstance(a, int) and abs(a) > 1:
+            return ('big', None)
+        return ('value', PYOPS[op](a, b))
+    except Exception as e:  # ZeroDivisionError, OverflowError ...
+        return ('raises', type(e).__name__)
+
+
+def same(kind, val, want):
+    if isinstance(want, bool):
+        return kind == 'Bool' and val == want
+    if isinstance(want, float):
+        if kind != 'Float':
+            return False
+        if math.isnan(want):
+            return math.isnan(val)
+        return struct.pack('<d', val) == struct.pack('<d', want)
+    if isinstance(want, int):
+        return kind in ('Int', 'Nat') and val == want
+    return False
+
+
 def find(run, failure):
-    return {"found": False, "note": "no counterexample search implemented yet"}
+    m = re.match(r'(\w+)\[(\w+),(\w+)\]', failure["key"])
+    if not m:
+        return {"found": False, "note": "obligation is not a class copy of a try_* function"}
+    op, ca, cb = m.group(1), m.group(2), m.group(3)
+    if op not in PYOPS:
+        return {"found": False, "note": "no oracle for " + op}
+    binary = replay.build(run, 'c04')
+    cases = [(a, b) for a in GRID[ca] for b in GRID[cb]]
+    lines = ["%s %s %s" % (op, enc(ca, a), enc(cb, b)) for (a, b) in cases]
+    outs = replay.run_lines(binary, lines)
+    if len(outs) != len(cases):
+        return {"found": False, "note": "replay produced %d lines for %d cases" % (len(outs), len(cases))}
+    for (a, b), out in zip(cases, outs):
+        tag, want = oracle(op, a, b)
+        bad = None
+        if out.startswith('PANIC'):
+            bad = "real code panics: " + out
+        elif out == 'None':
+            continue  # left to run time: always allowed
+        elif tag == 'big':
+            continue
+        else:
+            k, v = dec(out[5:-1])
+            if tag == 'raises':
+                bad = "real code yields %s but Python raises %s" % (out, want)
+            elif not same(k, v, want):
+                bad = "real code yields %s but Python gives %r" % (out, want)
+        if bad:
+            return {"found": True, "how": "boundary-grid search on the real function (Verus gives no model); %d operand pairs tried" % len(cases),
+                    "input": {"function": "ValueObj::" + op, "lhs": enc(ca, a), "rhs": enc(cb, b)},
+                    "real_result": out, "python_oracle": repr(want) if tag == 'value' else "raises " + str(want),
+                    "verdict": bad, "replay_cmd": "echo '%s %s %s' | %s" % (op, enc(ca, a), enc(cb, b), binary)}
+    return {"found": False, "note": "no disagreement on %d boundary operand pairs" % len(cases)}
+
+
+def _decode(ty, entry):
+    bs = bytes(int(x) for x in entry["bytes"].split(',') if x.strip())
+    if ty == 'i32':
+        return struct.unpack('<i', bs[:4])[0]
+    if ty == 'u64':
+        return struct.unpack('<Q', bs[:8])[0]
+    if ty == 'f64':
+        return struct.unpack('<d', bs[:8])[0]
+    if ty == 'bool':
+        return bs[0] != 0
+    return None
+
+
+def find_kani(run, unit, harness, label, failure):
+    """Re-run the failed harness with concrete playback, decode Kani's counterexample and replay it on
+    the REAL function; fall back to the boundary grid if Kani prints no values."""
+    m = re.match(r'(\w+)\[(\w+),(\w+)\]', label)
+    if not m:
+        return {"found": False, "note": "helper harness: no operand decoding", "kani": failure["detail"].get("msg")}
+    op, ca, cb = m.groups()
+    ty = {'Int': 'i32', 'Nat': 'u64', 'Float': 'f64', 'Bool': 'bool'}
+    r = unit.run_one(harness, timeout_s=600, playback=True)
+    vals = (r.cex or {}).get("playback_values_in_order_of_kani_any_calls") or []
+    if len(vals) >= 2:
+        a = _decode(ty[ca], vals[0])
+        b = _decode(ty[cb], vals[1])
+        binary = replay.build(run, 'c04')
+        line = "%s %s %s" % (op, enc(ca, a), enc(cb, b))
+        out = replay.run_lines(binary, [line])
+        tag, want = oracle(op, a, b)
+        real = out[0] if out else '?'
+        bad = None
+        if real.startswith('PANIC'):
+            bad = "real code panics: " + real
+        elif real != 'None' and tag == 'raises':
+            bad = "real code yields %s but Python raises %s" % (real, want)
+        elif real != 'None' and tag == 'value':
+            k, v = dec(real[5:-1])
+            if not same(k, v, want):
+                bad = "real code yields %s but Python gives %r" % (real, want)
+        if bad:
+            return {"found": True, "how": "Kani counterexample (concrete playback) replayed on the real function",
+                    "input": {"function": "ValueObj::" + op, "lhs": enc(ca, a), "rhs": enc(cb, b), "lhs_value": repr(a), "rhs_value": repr(b)},
+                    "real_result": real, "python_oracle": repr(want) if tag == 'value' else "raises " + str(want),
+                    "verdict": bad, "replay_cmd": "echo '%s' | %s" % (line, binary)}
+    g = find(run, {"key": label})
+    if g.get("found"):
+        return g
+    return {"found": False, "note": "Kani counterexample did not reproduce a disagreement with the Python oracle on the real function (values: %r); grid search: %s" % (vals[:2], g.get("note"))}
